@@ -1,8 +1,13 @@
 // ---------------------------------------------------------------------------------------------
 // TRUSTED domain stand-ins: opaque values with structural equality and the hash-map key model.
 // ---------------------------------------------------------------------------------------------
-#[derive(Clone, Copy, PartialEq, Eq, Hash, Debug)]
+#[derive(Clone, Copy, Eq, Hash, Debug)]
 pub struct PublicKey(pub u64);
+impl vstd::std_specs::cmp::PartialEqSpecImpl for PublicKey {
+    open spec fn obeys_eq_spec() -> bool { true }
+    open spec fn eq_spec(&self, other: &PublicKey) -> bool { *self == *other }
+}
+impl PartialEq for PublicKey { fn eq(&self, other: &Self) -> bool { self.0 == other.0 } }
 #[derive(Clone, Copy, PartialEq, Eq, Debug)]
 pub struct SecretKey(pub u64);
 #[derive(Clone, Copy, PartialEq, Eq, Hash, Debug)]
